@@ -614,6 +614,30 @@ def toy_total(c):
     return total
 
 
+def run_worker_case(model, c, size, mb, fuel=300):
+    """returns (outcome label, None | description of the disagreement)"""
+    want = model.call("mem_toy_worker", [fuel, c["states"], c["us"], c["isz"], c["bsz"], c["packed"], size, mb, []])
+    d = toy_decompressor([(s[0], s[1], bytes(s[2])) for s in c["states"]], c["us"], c["isz"], c["bsz"])
+    fp = SchedFP(bytes(c["packed"]))
+    if want[0] == 1 and want[1] == 7:
+        got = run_worker(d, fp, size, mb, max_calls=fuel + 5)   # the model says: spins (C05/C12's finding, not ours)
+        return "spins", (None if got == ("spin",) else "Worker.decompress terminates where Mem.worker_peak runs out of fuel")
+    try:
+        got = run_worker(d, fp, size, mb)
+    except EOFError:
+        got = ("err", 5)
+    except IndexError:
+        got = ("err", 6)
+    if want[0] == 1:
+        ok, label = got == ("err", want[1]), "error"
+    else:
+        ok, label = got == (bytes(want[1][0]), want[1][1], want[1][2]), "ok"
+    if ok:
+        return label, None
+    return label, "Worker.decompress and Mem.worker_peak disagree: implementation %r model %r" % (
+        got if got[0] in ("err", "spin") else (got[0][:30], got[1], got[2]), want)
+
+
 def check_toy_worker(ctx, rep, rng, tier):
     model = ctx["model"]
     if model is None:
@@ -625,37 +649,12 @@ def check_toy_worker(ctx, rep, rng, tier):
         total = toy_total(c)
         size = rng.choice([total, total, total, max(0, total - 3), total // 2, min(total, 30), total + 5, 0])
         mb = rng.choice([1, 2, 5, 8, 16, 64])
-        fuel = 300
-        want = model.call("mem_toy_worker", [fuel, c["states"], c["us"], c["isz"], c["bsz"], c["packed"], size, mb, []])
         rep.count(("toyworker", repr(c), size, mb), nontrivial=size > 0 and len(c["packed"]) > 0)
-        d = toy_decompressor([(s[0], s[1], bytes(s[2])) for s in c["states"]], c["us"], c["isz"], c["bsz"])
-        fp = SchedFP(bytes(c["packed"]))
-        if want[0] == 1 and want[1] == 7:
-            got = run_worker(d, fp, size, mb, max_calls=fuel + 5)   # the model says: spins (C05/C12's finding, not ours)
-            rep.dist("toy_worker_outcome", "spins")
-            if got != ("spin",):
-                rep.violation("Worker.decompress terminates where Mem.worker_peak runs out of fuel",
-                              {"kind": "toy-worker", "case": c, "size": size, "mb": mb}, concrete=False,
-                              match_keys={"kind": "toy-worker"})
-                return
-            continue
-        try:
-            got = run_worker(d, fp, size, mb)
-        except EOFError:
-            got = ("err", 5)
-        except IndexError:
-            got = ("err", 6)
-        if want[0] == 1:
-            ok = got == ("err", want[1])
-            rep.dist("toy_worker_outcome", "error")
-        else:
-            ok = got == (bytes(want[1][0]), want[1][1], want[1][2])
-            rep.dist("toy_worker_outcome", "ok")
-        if not ok:
-            rep.violation("Worker.decompress and Mem.worker_peak disagree: implementation %r model %r" % (
-                got if got[0] in ("err", "spin") else (got[0][:30], got[1], got[2]), want),
-                {"kind": "toy-worker", "case": c, "size": size, "mb": mb}, concrete=False,
-                match_keys={"kind": "toy-worker"})
+        label, bad = run_worker_case(model, c, size, mb)
+        rep.dist("toy_worker_outcome", label)
+        if bad:
+            rep.violation(bad, {"kind": "toy-worker", "case": c, "size": size, "mb": mb}, concrete=False,
+                          match_keys={"kind": "toy-worker"})
             return
 
 
@@ -670,9 +669,34 @@ class _RecFP:
         return len(s)
 
 
+def run_compress_case(model, states, fd, bs, sched):
+    from py7zr.compressor import SevenZipCompressor
+    want = model.call("mem_ctoy_compress", [200, states, fd, bs, sched])
+    c = SevenZipCompressor(filters=[{"id": FILTER_COPY}] * len(states), blocksize=bs)
+    c.chain = [ToyComp(s[0]) for s in states]
+    src = SchedFP(bytes(fd))
+    it = iter(sched)
+    orig_read = src.read
+
+    def read(nb=-1, _o=orig_read, _it=it, _src=src):
+        _src.k = next(_it, 1 << 60)
+        return _o(nb)
+
+    src.read = read
+    fp = _RecFP()
+    insize, foutsize, _crc = c.compress(src, fp)
+    log = [[m, w] for (_n, m), w in zip([r for r in src.reads if r[1] > 0], fp.writes)]
+    peak = max([t.peak for t in c.chain] + [0])
+    got = [list(fp.b), insize, peak, log, [list(t.pend) for t in c.chain]]
+    reads_ok = all(nb == bs for nb, _m in src.reads)
+    if want[0] != 0 or want[1] != got or foutsize != len(fp.b) or not reads_ok:
+        return "SevenZipCompressor.compress and Mem.compress_loop disagree: implementation %r read requests %r model %r" % (
+            got, sorted(set(nb for nb, _m in src.reads)), want)
+    return None
+
+
 def check_toy_compress(ctx, rep, rng, tier):
     """SevenZipCompressor.compress with toy compressors against Mem.compress_loop"""
-    from py7zr.compressor import SevenZipCompressor
     model = ctx["model"]
     if model is None:
         return
@@ -683,28 +707,10 @@ def check_toy_compress(ctx, rep, rng, tier):
         fd = [rng.randrange(256) for _ in range(rng.choice([0, 1, 6, 15, 31]))]
         bs = rng.choice([1, 2, 3, 4, 8, 64])
         sched = [rng.choice([999, 999, 1, 2, 3]) for _ in range(rng.randrange(0, 6))]
-        want = model.call("mem_ctoy_compress", [200, states, fd, bs, sched])
         rep.count(("toycomp", repr(states), bytes(fd), bs, tuple(sched)), nontrivial=len(fd) > 0)
-        c = SevenZipCompressor(filters=[{"id": FILTER_COPY}] * ns, blocksize=bs)
-        c.chain = [ToyComp(s[0]) for s in states]
-        src = SchedFP(bytes(fd))
-        it = iter(sched)
-        orig_read = src.read
-
-        def read(nb=-1, _o=orig_read, _it=it, _src=src):
-            _src.k = next(_it, 1 << 60)
-            return _o(nb)
-
-        src.read = read
-        fp = _RecFP()
-        insize, foutsize, _crc = c.compress(src, fp)
-        log = [[m, w] for (_n, m), w in zip([r for r in src.reads if r[1] > 0], fp.writes)]
-        peak = max([t.peak for t in c.chain] + [0])
-        got = [list(fp.b), insize, peak, log, [list(t.pend) for t in c.chain]]
-        reads_ok = all(nb == bs for nb, _m in src.reads)
-        if want[0] != 0 or want[1] != got or foutsize != len(fp.b) or not reads_ok:
-            rep.violation("SevenZipCompressor.compress and Mem.compress_loop disagree: implementation %r model %r" % (got, want),
-                          {"kind": "toy-compress", "states": states, "fd": fd, "bs": bs, "sched": sched}, concrete=False,
+        bad = run_compress_case(model, states, fd, bs, sched)
+        if bad:
+            rep.violation(bad, {"kind": "toy-compress", "states": states, "fd": fd, "bs": bs, "sched": sched}, concrete=False,
                           match_keys={"kind": "toy-compress"})
             return
 
@@ -1208,11 +1214,16 @@ def replay(d):
         res = real_codec_one({"chain": r["chain"], "configs": [{k: r[k] for k in ("pattern", "size", "bs", "ml", "seed")}]})
         print(json.dumps(res, default=str)[:1500])
         return 1 if any(("died" in x or "exc" in x or x.get("problems")) for x in res) else 0
-    if kind == "toy-trace":
+    if kind in ("toy-trace", "toy-worker", "toy-compress"):
         import vlib
         m = vlib.Model()
         try:
-            bad = run_toy_case(m, r["case"])
+            if kind == "toy-trace":
+                bad = run_toy_case(m, r["case"])
+            elif kind == "toy-worker":
+                bad = run_worker_case(m, r["case"], r["size"], r["mb"])[1]
+            else:
+                bad = run_compress_case(m, r["states"], r["fd"], r["bs"], r["sched"])
         finally:
             m.close()
         print(bad)
